@@ -658,7 +658,12 @@ func (c *Ctx) nwkTrees() ([]*newick.Node, [][]byte) {
 func (c *Ctx) nwkMalformed() []byte {
 	if c.rng.Intn(3) == 0 {
 		// arbitrary bytes over an alphabet from which no float can be formed
-		return c.bytesFrom([]byte("(),:;' _\t\nAB#\""), c.rng.Intn(30))
+		return normNewick(c.bytesFrom([]byte("(),:;' _\t\nAB#\"1.e-"), c.rng.Intn(30)))
+	}
+	if c.rng.Intn(3) == 0 {
+		// writer output with byte-level mutations
+		ts, seps := c.nwkTrees()
+		return normNewick(c.mutate(nwkWrite(ts, seps), []byte("(),:;' \n")))
 	}
 	toks := []string{"(", ")", ",", ":", ";", "A", "'q r'", "'it''s'", " ", "\n", "1.5", "0", "-0", "abc", "1e3", "0x10", "1_0", ".5", "Inf", "nan", "1.2.3", "'", "_", "a_b"}
 	var b bytes.Buffer
@@ -679,12 +684,64 @@ func (c *Ctx) nwkMalformed() []byte {
 		// separate adjacent bare tokens sometimes
 		if c.rng.Intn(3) == 0 {
 			b.WriteByte(' ')
-			if prevColon {
-				// whitespace after ':' keeps the "after colon" state; next token is still a distance
+		}
+	}
+	return normNewick(b.Bytes())
+}
+
+// normNewick rewrites, in arbitrary newick-ish bytes, every bare token that
+// directly follows a ':' token and that ParseFloat accepts, to Go's canonical
+// %v spelling (the float codec is outside the model).  It tokenizes the way
+// the reader does (quotes, structural bytes, whitespace).
+func normNewick(b []byte) []byte {
+	var out []byte
+	i := 0
+	afterColon := false
+	for i < len(b) {
+		c := b[i]
+		switch {
+		case c == ' ' || c == '\t' || c == '\n' || c == '\r':
+			out = append(out, c)
+			i++
+		case c == '(' || c == ')' || c == ',' || c == ':' || c == ';':
+			out = append(out, c)
+			afterColon = c == ':'
+			i++
+		case c == '\'':
+			// quoted token: up to the closing quote (doubled quotes stay inside)
+			j := i + 1
+			aq := false
+			for j < len(b) {
+				if b[j] == '\'' {
+					aq = !aq
+				} else if aq {
+					break
+				}
+				j++
+			}
+			out = append(out, b[i:j]...)
+			afterColon = false
+			i = j
+		default:
+			j := i
+			for j < len(b) && !strings.ContainsRune("(),:; \t\n\r'", rune(b[j])) {
+				j++
+			}
+			tok := string(b[i:j])
+			if afterColon {
+				tok = normDistTok(tok)
+			}
+			out = append(out, tok...)
+			afterColon = false
+			i = j
+			if i < len(b) && b[i] == '\'' {
+				// a quote inside a bare token is a syntax error for the reader; copy the rest verbatim
+				out = append(out, b[i:]...)
+				return out
 			}
 		}
 	}
-	return b.Bytes()
+	return out
 }
 
 // normDistTok maps a token that ParseFloat accepts to Go's canonical %v text.
